@@ -18,6 +18,12 @@ SHAPES = {
     "a2": dict(g="", ps=[("a", "i64", "11", "a"), ("b", "i64", "12", "b")], ret="i64", res="a * 100 + b"),
     # like a2, but the trait is stamped out by macro_rules and the two parameters are spelled identically (hygiene)
     "h2": dict(g="", ps=[("$p", "i64", "11", "a"), ("a", "i64", "12", "b")], ret="i64", res="a * 100 + b", stamped=True),
+    # provided methods: the provider overrides them, Impl<T> must still forward (not run the default body)
+    "df": dict(g="", ps=[("a", "i64", "11", "a")], ret="i64", res="a + 1", default="-1"),
+    "dfs": dict(g="", ps=[("a", "i64", "11", "a")], ret="i64", res="a + 1", default="-1", where="where Self: Sized", dyn=False),
+    # provided method whose parameters are patterns (destructuring first, then a `ref` binding)
+    "pt": dict(g="", ps=[("(w, h)", "(i64, i64)", "(11, 12)", "w"), ("ref lab", "i64", "13", "lab")], ret="i64", res="w * 100 + lab",
+               default="w + h + *lab", plain=[("wh", "(i64, i64)"), ("lab", "i64")], show=["wh.0", "lab"]),
     "s2": dict(g="", ps=[("a", "&str", '"s11"', "a"), ("b", "i64", "12", "b")], ret="String", res='format!("{}-{}", a, b)'),
     "bor": dict(g="<'x>", recv="&'x self", ps=[("a", "&'x str", '"s11"', "a")], ret="&'x str", res="a"),
     "slf": dict(g="", ps=[], ret="&str", res="self.name()"),
@@ -42,8 +48,10 @@ def enumerate_states(tier):
         needs_g = any(SHAPES[x].get("needs_g") for x in w)
         dyn_ok = all(SHAPES[x].get("dyn", True) for x in w)
         for sel in SELECTORS:
-            for generic in (False, True):
+            for generic in (False, True, "bd"):
                 if needs_g and not generic:
+                    continue
+                if generic == "bd" and tier != "thorough" and len(w) == 2:
                     continue
                 for sup in SUPERS:
                     if tier != "thorough" and len(w) == 2 and sup == "where":
@@ -54,18 +62,21 @@ def enumerate_states(tier):
                                 continue       # generic methods: not dyn-compatible, outside the supported class for dyn delegation
                             if asy and flavour == "native":
                                 continue       # native async fn in traits is not dyn-compatible
-                        key = "t_%s_%s_%s_%s_%s" % ("_".join(w), sel, "g" if generic else "n", {"": "x", ": 'static": "st", "where": "wh"}[sup],
+                        key = "t_%s_%s_%s_%s_%s" % ("_".join(w), sel, {False: "n", True: "g", "bd": "gbd"}[generic], {"": "x", ": 'static": "st", "where": "wh"}[sup],
                                                     "at" if flavour == "async_trait" else "na")
                         states.append(dict(key=key, word=list(w), sel=sel, generic=generic, sup=sup, flavour=flavour))
     return states, len(states), dict(method_shapes=len(SHAPES), word_len=maxlen, selectors=SELECTORS)
 
 
-def method_decl(shape, name, body=None, asy_kw=True):
+def method_decl(shape, name, body=None, asy_kw=True, in_trait=False):
     d = SHAPES[shape]
     recv = d.get("recv", "&self")
-    ps = ", ".join([recv] + ["%s: %s" % (p[0], p[1]) for p in d["ps"]])
+    plist = d["ps"] if (in_trait or "plain" not in d) else d["plain"]
+    ps = ", ".join([recv] + ["%s: %s" % (p[0], p[1]) for p in plist])
     ret = "" if d["ret"] == "()" else " -> " + d["ret"]
-    head = "%sfn %s%s(%s)%s" % ("async " if d.get("asy") else "", name, d["g"], ps, ret)
+    head = "%sfn %s%s(%s)%s %s" % ("async " if d.get("asy") else "", name, d["g"], ps, ret, d.get("where", ""))
+    if in_trait and d.get("default") is not None:
+        return head + " { " + d["default"] + " }"
     return head + (";" if body is None else " { " + body + " }")
 
 
@@ -74,6 +85,9 @@ def render(s):
     w = s["word"]
     # (dyn delegation of a generic trait needs `G: 'static`: the default object lifetime of `dyn Tr<G>` demands it)
     G = ("<G: 'static>" if s["sel"] in ("ref", "borrow") else "<G>") if s["generic"] else ""
+    if s["generic"] == "bd":
+        # a type parameter with an inline bound AND a default
+        G = "<G: ::core::clone::Clone + ::core::convert::Into<i64> + 'static = i64>"
     GA = "<i64>" if s["generic"] else ""
     asy = any(SHAPES[x].get("asy") for x in w)
     at = "#[::async_trait::async_trait]" if s["flavour"] == "async_trait" else ""
@@ -81,7 +95,7 @@ def render(s):
     dynsel = s["sel"] in ("ref", "borrow")
     sup = s["sup"]
     if sup == "where":
-        head = "pub trait Tr%s where u8: Copy" % G + (", G: Clone" if s["generic"] else "")
+        head = "pub trait Tr%s where u8: Copy" % G + (", G: ::core::clone::Clone" if s["generic"] else "")
     elif dynsel and asy:
         head = "pub trait Tr%s: ::core::marker::Sync + 'static" % G
     else:
@@ -96,7 +110,7 @@ def render(s):
     L.append("    %s {" % head)
     L.append("        fn name(&self) -> &str;")
     for i, x in enumerate(w):
-        L.append("        " + method_decl(x, "m%d" % i))
+        L.append("        " + method_decl(x, "m%d" % i, in_trait=True))
     L.append("    }")
     if stamped:
         L.append("    } }")
@@ -109,10 +123,10 @@ def render(s):
     L.append("        fn name(&self) -> &str { self.0 }")
     for i, x in enumerate(w):
         d = SHAPES[x]
-        shows = [p[3] for p in d["ps"]]
+        shows = d.get("show") or [p[3] for p in d["ps"]]
         ev = "rt::ev(%s);" % gen.fmt_call("P.m%d|{:x}" % i if False else "P.m%d" % i, ['format!("{:x}", rt::addr(self))'] + shows)
         pre = "rt::yield_once().await; " if d.get("asy") else ""
-        res = d["res"].replace("G", "i64") if False else d["res"]
+        res = d["res"].replace("w * 100", "wh.0 * 100") if "plain" in d else d["res"]
         decl = method_decl(x, "m%d" % i, pre + ev + " " + res).replace("$p:", "a:").replace(", a: i64)", ", b: i64)") if d.get("stamped") else method_decl(x, "m%d" % i, pre + ev + " " + res)
         if s["generic"]:
             decl = decl.replace(": G", ": i64").replace("-> G", "-> i64")
@@ -142,7 +156,7 @@ def render(s):
         L.append('        fn name(&self) -> &str { "x" }')
         for i, x in enumerate(w):
             d = SHAPES[x]
-            body = d["res"]
+            body = d["res"].replace("w * 100", "wh.0 * 100") if "plain" in d else d["res"]
             decl = method_decl(x, "m%d" % i, body)
             if d.get("stamped"):
                 decl = decl.replace("$p:", "a:").replace(", a: i64)", ", b: i64)")
@@ -182,9 +196,9 @@ def model(s):
     exp = {}
     for i, x in enumerate(w):
         d = SHAPES[x]
-        shown = {"11": "11", "12": "12", '"s11"': "s11", "11i64": "11", "11u8": "11"}
+        shown = {"11": "11", "12": "12", "13": "13", '"s11"': "s11", "11i64": "11", "11u8": "11", "(11, 12)": "11"}
         args = [shown[p[2]] for p in d["ps"]]
-        res = {"n0": "7", "a1": "12", "a2": "1112", "h2": "1112", "s2": "s11-12", "bor": "s11", "slf": "prov", "gen": "11", "gm": "11",
+        res = {"n0": "7", "a1": "12", "a2": "1112", "h2": "1112", "df": "12", "dfs": "12", "pt": "1113", "s2": "s11-12", "bor": "s11", "slf": "prov", "gen": "11", "gm": "11",
                "xa1": "12", "xa2": "1112", "xs": "3", "xu": "()"}[x]
         exp["m%d" % i] = dict(trace_tail="|".join(args), result=res)
     try_dyn = all(SHAPES[x].get("dyn", True) for x in w) and not (asy and s["flavour"] == "native")
@@ -242,7 +256,7 @@ def evaluate(states, report, tier):
             if sig in done:
                 continue
             done.add(sig)
-            tags = {"sel:" + s["sel"], "generic" if s["generic"] else "nongeneric", "flavour:" + s["flavour"], "sup:" + (s["sup"] or "none")} | \
+            tags = {"sel:" + s["sel"], ("generic-bounded-default" if s["generic"] == "bd" else "generic") if s["generic"] else "nongeneric", "flavour:" + s["flavour"], "sup:" + (s["sup"] or "none")} | \
                 {"shape:" + x for x in s["word"]}
             if any(SHAPES[x].get("asy") for x in s["word"]):
                 tags.add("async")
